@@ -346,9 +346,14 @@ class C11:
                                        rfloat(rng, 5, 9, 3)]})
         sp = b.emit('spheres', {'members': members, 'warn': False},
                     store='sps')
+        tr = [rfloat(rng, -3, 3, 3) for _ in range(3)]
+        if rng.random() < 0.3:
+            # displacements that cancel in the sum (or are partly zero)
+            tr = rng.choice([[2.0, -2.0, 0.0], [-3.5, 3.5, 0.0],
+                             [0.5, 0.25, -0.75], [0.0, 0.0, 1.5],
+                             [1.0, 0.0, -1.0]])
         return b.emit('rigid_cluster', {
-            'spheres': sp,
-            'translation': [rfloat(rng, -3, 3, 3) for _ in range(3)],
+            'spheres': sp, 'translation': tr,
             'rotation': [rfloat(rng, 0, 6, 3) for _ in range(3)]},
             store='rc')
 
@@ -375,7 +380,12 @@ class C11:
                 'n': n_a, 'r': r_a, 'center': [c[0] for c in cen]}})
             mspec.append({'n': n_s, 'r': r_s, 'center': [c[1] for c in cen]})
         rot = [site(rfloat(rng, 0, 3, 3), 0, 3.1) for _ in range(3)]
-        tra = [site(rfloat(rng, -3, 3, 3), -4, 4) for _ in range(3)]
+        if rng.random() < 0.3:
+            # fixed displacements that cancel in the sum
+            tra = [(v_, v_) for v_ in rng.choice([
+                [2.0, -2.0, 0.0], [-3.5, 3.5, 0.0], [0.5, 0.25, -0.75]])]
+        else:
+            tra = [site(rfloat(rng, -3, 3, 3), -4, 4) for _ in range(3)]
         sp = b.emit('spheres', {'members': margs, 'warn': False},
                     store='sps')
         rc = b.emit('rigid_cluster', {
